@@ -44,7 +44,7 @@ ClientOnlyNext == Is("Send") \/ Is("IdleBegin") \/ Is("Shut")
 Silent == /\ ~ClientOnlyNext
           /\ \/ Srv_ReadFirst \/ Srv_Eof \/ Srv_Timeout408
              \/ \E L \in Landings : Srv_FillTo(L)
-             \/ Srv_HeadDone \/ Srv_BodyDone \/ Srv_Respond400 \/ Srv_Dispatch \/ Srv_Write
+             \/ Srv_HeadDone \/ Srv_HeadEof \/ Srv_BodyDone \/ Srv_Respond400 \/ Srv_Dispatch \/ Srv_Write
              \/ Srv_Desync400 \/ Srv_Desync408
           /\ UNCHANGED tvars
 
